@@ -142,6 +142,7 @@ impl IndexRead {
             hunks: hunks.into_iter(),
             index: self,
             after: None,
+            monitor: None,
         })
     }
 
@@ -155,6 +156,7 @@ impl IndexRead {
             hunks: hunks.into_iter(),
             index: self,
             after: None,
+            monitor: None,
         }
     }
 }
@@ -167,6 +169,8 @@ pub struct IndexHunkIter {
     pub index: IndexRead,
     /// If set, yield only entries ordered after this apath.
     after: Option<Apath>,
+    /// If set, hunks that can't be read are reported here rather than silently skipped.
+    monitor: Option<std::sync::Arc<dyn crate::monitor::Monitor>>,
 }
 
 impl IndexHunkIter {
@@ -179,7 +183,12 @@ impl IndexHunkIter {
             let entries = match self.index.read_hunk(hunk_number).await {
                 Ok(None) => return None,
                 Ok(Some(entries)) => entries,
-                Err(_err) => {
+                Err(err) => {
+                    // Skip this hunk and carry on with the rest, but don't be silent about
+                    // the entries that are lost.
+                    if let Some(monitor) = &self.monitor {
+                        monitor.error(err);
+                    }
                     continue;
                 }
             };
@@ -230,6 +239,15 @@ impl IndexHunkIter {
             entries.extend(hunk);
         }
         Ok(entries)
+    }
+
+    /// Report hunks that can't be read to this monitor.
+    #[must_use]
+    pub fn with_monitor(self, monitor: std::sync::Arc<dyn crate::monitor::Monitor>) -> Self {
+        IndexHunkIter {
+            monitor: Some(monitor),
+            ..self
+        }
     }
 
     /// Advance self so that it returns only entries with apaths ordered after `apath`.
